@@ -57,7 +57,7 @@ type EzCfg struct {
 	L          []string `dials:"l"`
 	N          int64    `dials:"n"`
 	Key        string   `dials:"key"`
-	KeyFile    string   `dials:"key_file"` // its variable KEY_FILE must never be read as "the file holding KEY"
+	KeyFile    string   `dials:"key_file" dialsalias:"key_path"` // its variable KEY_FILE must never be read as "the file holding KEY"
 	Emb                 // embedded, untagged: its leaf is E / -e / top-level "e" (JSON, Cue, YAML with FlattenAnonymousFields), "emb: e:" (YAML without), [Emb] (TOML)
 }
 
@@ -498,8 +498,15 @@ func run(raw json.RawMessage) driver.Result {
 		format = "yaml" // the only format the option matters for
 	}
 	keyFileKey, validKey = "key_file", "valid"
+	viaAlias := r.Chance(1, 3) // the file names the leaf by its alias (re-cased like every other key)
+	if viaAlias {
+		keyFileKey = "key_path"
+	}
 	if vr.kebab {
 		keyFileKey = "key-file"
+		if viaAlias {
+			keyFileKey = "key-path"
+		}
 		if vr.ownDec {
 			validKey = "va-lid"
 		}
@@ -659,6 +666,11 @@ func run(raw json.RawMessage) driver.Result {
 	var sharedFS *stdflag.FlagSet
 	if flagMode <= 1 {
 		sharedFS = stdflag.NewFlagSet("", stdflag.ContinueOnError)
+		// flags that belong to the application alone, given on the command line, sorting before, between and
+		// after the config's flags
+		sharedFS.Bool("0-app-debug", false, "not a config flag")
+		sharedFS.String("app-mode", "", "not a config flag")
+		sharedFS.Int("zz-app-level", 0, "not a config flag")
 		if flagMode == 0 {
 			sharedFS.Int("a", 99, "registered by the application")
 			sharedFS.String("b", "app", "registered by the application")
@@ -667,7 +679,7 @@ func run(raw json.RawMessage) driver.Result {
 	}
 	mkFlags := func() *flag.Set {
 		if sharedFS != nil {
-			fs, args := sharedFS, flagArgs(flagL)
+			fs, args := sharedFS, append([]string{"-0-app-debug", "-app-mode=x", "-zz-app-level=3"}, flagArgs(flagL)...)
 			return &flag.Set{Flags: fs, ParseFunc: func() error { return fs.Parse(args) }}
 		}
 		tmpl := *defaults
